@@ -217,13 +217,20 @@ func (st *c14State) processedAll(x, o int, seqs map[uint64]bool) bool {
 	return true
 }
 
-func c14Case(r *verifkit.R, phase string, ci int, rng *verifkit.Rand, churn, large bool) {
+// seenCap: 0 = no saturation workload; otherwise the seen caches are filled beyond seenCap entries
+// before the judged announcements (FloodConfig.MaxSeenCacheSize is set to seenCap unless it is
+// the production default 10000, which is left as DefaultFloodConfig gives it).
+func c14Case(r *verifkit.R, phase string, ci int, rng *verifkit.Rand, churn, large bool, seenCap int) {
 	n := rng.Range(3, 5)
 	if large {
 		n = rng.Range(3, 4)
 	}
 	g := simRandomConnectedGraph(rng, n, 30)
-	s := newSimNet(n, nil)
+	var cfgmod func(i int, cfg *FloodConfig)
+	if seenCap > 0 && seenCap != DefaultFloodConfig().MaxSeenCacheSize {
+		cfgmod = func(i int, cfg *FloodConfig) { cfg.MaxSeenCacheSize = seenCap }
+	}
+	s := newSimNet(n, cfgmod)
 	defer s.Close()
 	st := &c14State{r: r, phase: phase, ci: ci, s: s, rng: rng, adverts: map[int][]simRouteKey{}, processed: map[[3]uint64]bool{},
 		sc: &simSched{DupPct: 8, MaxDups: 6, MaxSteps: 20000}}
@@ -303,6 +310,40 @@ func c14Case(r *verifkit.R, phase string, ci int, rng *verifkit.Rand, churn, lar
 		st.desc += largeDesc
 		largeDesc = ""
 	}
+	if seenCap > 0 {
+		// saturation workload: periodic announcements of everybody and link flaps (each replay
+		// occupies one seen-cache slot per replayed origin) until every agent has seen more
+		// distinct advertisements than MaxSeenCacheSize. SeenCacheSize() only steers the
+		// workload; nothing is asserted about the cache size.
+		filled := func() bool {
+			for i := 0; i < n; i++ {
+				if s.Nodes[i].Fl.SeenCacheSize() < seenCap+4 {
+					return false
+				}
+			}
+			return true
+		}
+		for it := 0; it < 40*seenCap+400 && !filled(); it++ {
+			if rng.Chance(1, 25) {
+				e := g.Edges[rng.Intn(len(g.Edges))]
+				s.Disconnect(e[0], e[1])
+				s.Connect(e[0], e[1])
+			} else {
+				s.Announce(rng.Intn(n))
+			}
+			if !s.simRunRandom(rng, st.sc) {
+				break
+			}
+		}
+		for _, e := range g.Edges { // all links up again for the judged part
+			s.Connect(e[0], e[1])
+		}
+		s.simRunRandom(rng, st.sc)
+		if filled() {
+			r.Add("cases_seen_cache_filled_beyond_limit", 1)
+		}
+		st.desc += fmt.Sprintf(" seen-cache-limit=%d", seenCap)
+	}
 	rounds := rng.Range(3, 7)
 	for k := 0; k < rounds; k++ {
 		if churn && rng.Chance(1, 2) {
@@ -359,11 +400,19 @@ func TestVerif_C14(t *testing.T) {
 	r := verifkit.Start(t, "C14", "simnet")
 	r.Rule("one case = one history of connects (full-table replays), disconnects, bystander announcements and 3-7 judged origin announcements on 3-5 real Flooder+routing.Manager nodes with drifted sequence counters; each judged announcement is checked at every connected agent for processing and for renewed LastUpdate of every route of the origin; " +
 		"non-trivial = at least two announcements were judged; distinct by phase+scenario+judged counts")
-	r.Cases("stable", r.N(1300, 60000), func(ci int, rng *verifkit.Rand) { c14Case(r, "stable", ci, rng, false, false) })
-	r.Cases("churn", r.N(900, 40000), func(ci int, rng *verifkit.Rand) { c14Case(r, "churn", ci, rng, true, false) })
+	r.Cases("stable", r.N(1300, 60000), func(ci int, rng *verifkit.Rand) { c14Case(r, "stable", ci, rng, false, false, 0) })
+	r.Cases("churn", r.N(900, 40000), func(ci int, rng *verifkit.Rand) { c14Case(r, "churn", ci, rng, true, false, 0) })
 	// an origin whose route set needs several advertisements, late joiners, then everybody announces
-	r.Cases("large", r.N(40, 2000), func(ci int, rng *verifkit.Rand) { c14Case(r, "large", ci, rng, true, true) })
+	r.Cases("large", r.N(40, 2000), func(ci int, rng *verifkit.Rand) { c14Case(r, "large", ci, rng, true, true, 0) })
 	r.Require("cases_large", 30)
+	// seen caches filled beyond MaxSeenCacheSize before the judged announcements
+	r.Cases("saturation", r.N(30, 1500), func(ci int, rng *verifkit.Rand) {
+		c14Case(r, "saturation", ci, rng, ci%2 == 0, false, []int{32, 64, 128, 256}[rng.Intn(4)])
+	})
+	r.Cases("saturation-default", r.N(2, 12), func(ci int, rng *verifkit.Rand) {
+		c14Case(r, "saturation-default", ci, rng, ci%2 == 0, false, DefaultFloodConfig().MaxSeenCacheSize)
+	})
+	r.Require("cases_seen_cache_filled_beyond_limit", 25)
 	r.Require("announcements_judged_clean", 3000)
 	r.Require("announcements_judged_replay-preceded", 500)
 	r.Require("copies_renewed", 5000)
